@@ -234,6 +234,102 @@ def random_history(seed):
     return {'n': n, 'parent': par2, 'opt': opt, 'source': src, 'steps': steps, 'err': err, 'ids': style, 'seed': seed}
 
 
+class _Poisoned(tree.Node):
+    """a node whose row cannot be rendered for this reader: reading what the row shows raises Unauthorized"""
+
+    @property
+    def uid(self):
+        from zExceptions import Unauthorized
+        raise Unauthorized('uid')
+
+    @uid.setter
+    def uid(self, v):
+        self.__dict__['_uid'] = v
+
+
+def su_history(seed):
+    """dtml-tree with skip_unauthorized under a template class that supplies guards, some leaves' rows not renderable: a request
+    is either refused as a whole (nothing to check), or what it shows -- rows, links, the cookie, what the links then do -- is
+    what the machine says for the tree without those leaves"""
+    from DocumentTemplate.DT_HTML import HTML
+    rng = random.Random(seed)
+    n = rng.randint(5, 12)
+    parent = [0] + [rng.randint(max(1, i - 3), i - 1) for i in range(2, n + 1)]
+    kids = {}
+    for i, p in enumerate(parent, 1):
+        kids.setdefault(p, []).append(i)
+    order = []
+
+    def dfs(x):
+        order.append(x)
+        for c in kids.get(x, []):
+            dfs(c)
+    dfs(1)
+    ren = {old: new for new, old in enumerate(order, 1)}
+    par2 = [0] * n
+    for old in order:
+        par2[ren[old] - 1] = ren.get(parent[old - 1], 0) if old != 1 else 0
+    haskids = {p for p in par2 if p}
+    leaves = [i for i in range(2, n + 1) if i not in haskids]
+    poisoned = set()
+    for lf in leaves:
+        sib_ok = [j for j in range(2, n + 1) if par2[j - 1] == par2[lf - 1] and j != lf and j not in poisoned]
+        if sib_ok and rng.random() < 0.5:
+            poisoned.add(lf)
+    if not poisoned:
+        return None
+    nodes = tree.build(par2, None, variant=0)
+    for i in poisoned:
+        u = nodes[i - 1].__dict__.pop('uid')
+        nodes[i - 1].__class__ = _Poisoned
+        nodes[i - 1].__dict__['_uid'] = u
+    # the machine's tree: without the poisoned leaves, numbered in the same (depth-first) order
+    keep = [i for i in range(1, n + 1) if i not in poisoned]
+    newnum = {old: k + 1 for k, old in enumerate(keep)}
+    mpar = [newnum.get(par2[old - 1], 0) for old in keep]
+    num = {nodes[old - 1].__dict__.get('uid', nodes[old - 1].__dict__.get('_uid')): newnum[old] for old in keep}
+    G = _SU.get('cls')
+    if G is None:
+        G = _SU['cls'] = type('GuardedTreeHTML', (HTML,), {'guarded_getattr': staticmethod(lambda ob, name: getattr(ob, name)),
+                                                          'guarded_getitem': staticmethod(lambda ob, i: ob[i])})
+    opt = mkopt({}, len(keep), rng)
+    src = tree.source(opt, variant=0).replace('<dtml-tree root', '<dtml-tree root skip_unauthorized=1')
+    steps = []
+
+    def rec(op, x, o):
+        steps.append({'op': op, 'x': x, 'rows': [[k, num[r]] for k, r in o['items']],
+                      'state': sorted(num.get(s_, -1) for s_ in o['state'] if s_ != nodes[0].uid),
+                      'links': sorted([num[k], 'c' if v[0] == 'tree-c' else 'e'] for k, v in o['links'].items())})
+    refused = False
+    try:
+        o = tree.request(nodes, src=src, cls=G)
+        rec('init', 0, o)
+        for step in range(rng.randint(4, 14)):
+            c = rng.random()
+            if c < 0.12:
+                o = tree.request(nodes, o['cookie'], special='expand_all', src=src, cls=G)
+                rec('expand_all', 0, o)
+            elif c < 0.2 or not o['links']:
+                o = tree.request(nodes, o['cookie'], src=src, cls=G)
+                rec('reload', 0, o)
+            else:
+                nid = rng.choice(sorted(o['links']))
+                o = tree.request(nodes, o['cookie'], o['links'][nid], src=src, cls=G)
+                rec('click', num[nid], o)
+    except Exception as e:  # noqa
+        if type(e).__name__ == 'Unauthorized':
+            refused = True
+        else:
+            return {'n': len(keep), 'parent': mpar, 'opt': opt, 'source': src, 'steps': steps, 'err': '%s: %s' % (type(e).__name__, str(e)[:100]),
+                    'ids': 'su', 'seed': seed}
+    if refused and not steps:
+        return {'refused': True}
+    return {'n': len(keep), 'parent': mpar, 'opt': opt, 'source': src, 'steps': steps, 'err': None, 'ids': 'su', 'seed': seed}
+
+
+_SU = {}
+
+
 def codec_case(seed):
     from TreeDisplay import TreeTag
     rng = random.Random(seed)
@@ -296,6 +392,13 @@ def main(tier):
     # random larger trees / histories, validated by TLC
     hs = common.pool_map(random_history, [common.seed() * 100003 + i for i in range(150 if tier == 'quick' else 1500)],
                          chunk=10, per_case=40 if tier == 'quick' else 120)
+    for h in common.pool_map(su_history, [common.seed() * 31337 + i for i in range(60 if tier == 'quick' else 600)], chunk=10, per_case=60):
+        if h is None:
+            continue
+        if isinstance(h, dict) and h.get('refused'):
+            V.count('guarded_tree_requests_refused_as_a_whole')
+            continue
+        hs.append(h)
     traces = []
     for h in hs:
         if '_crash' in h or '_timeout' in h:
